@@ -28,10 +28,14 @@ Definition ltarget_of (pc : lpc) (sel : atom) : atom :=
 Definition map_table (tbl : list (atom * atom)) (x : atom) : option atom :=
   match find (fun p => N.eqb (fst p) x) tbl with Some (_, o) => Some o | None => None end.
 
-Definition lcase := (atom * atom * atom * atom * list (atom * atom) * list (atom * atom) *
+(* hook table: input id |-> 1 (skip-tagged error) / 2 (other error); absent = nil *)
+Definition hook_table (tbl : list (atom * atom)) (x : atom) : option bool :=
+  match find (fun p => N.eqb (fst p) x) tbl with Some (_, m) => Some (N.eqb m 1) | None => None end.
+
+Definition lcase := (atom * atom * atom * atom * list (atom * atom) * list (atom * atom) * list (atom * atom) *
                      list (lchoice * gcall * atom) * option bool * list res * list res)%type.
 
-Fixpoint l_check_run ns tin tout cname tf mapf (s : lsys) (steps : list (lchoice * gcall * atom)) : option lsys :=
+Fixpoint l_check_run ns tin tout cname tf mapf hook (s : lsys) (steps : list (lchoice * gcall * atom)) : option lsys :=
   match steps with
   | [] => Some s
   | (ch, g, tg) :: t =>
@@ -41,12 +45,12 @@ Fixpoint l_check_run ns tin tout cname tf mapf (s : lsys) (steps : list (lchoice
                     match l_request ns tin tout cname tf (ls_pc s) fault sel with Some _ => true | None => false end
                 | _ => true
                 end in
-      if ok then l_check_run ns tin tout cname tf mapf (l_step ns tin tout cname tf mapf s ch) t else None
+      if ok then l_check_run ns tin tout cname tf mapf hook (l_step ns tin tout cname tf mapf hook s ch) t else None
   end.
 
 Definition lcase_ok (c : lcase) : bool :=
-  let '(ns, tin, tout, cname, maptbl, tbl, steps, final, ins, outs) := c in
-  match l_check_run ns tin tout cname (tf_table tbl) (map_table maptbl) (mkLS [] L0) steps with
+  let '(ns, tin, tout, cname, maptbl, hooktbl, tbl, steps, final, ins, outs) := c in
+  match l_check_run ns tin tout cname (tf_table tbl) (map_table maptbl) (hook_table hooktbl) (mkLS [] L0) steps with
   | None => false
   | Some s =>
       (match ls_pc s, final with
